@@ -105,7 +105,7 @@ type Contract struct {
 	Props    []string
 	Trusted  string // non-empty: contract is assumed, reason
 	ReplayIn []ReplayInput
-	ReplayBd []*SExpr // extra constraints used only to obtain small counterexamples for replay
+	ReplayBd []*SExpr            // extra constraints used only to obtain small counterexamples for replay
 	Dispatch map[string][]string // interface type name -> allowed dynamic types (proved at each invoke)
 }
 
@@ -866,4 +866,53 @@ func (p *sparser) primary() (*SExpr, error) {
 		}
 	}
 	return nil, fmt.Errorf("unexpected %q", t.v)
+}
+
+// expandModifies replaces `@pkg.Func` entries of modifies clauses by that contract's modifies
+// list (type names qualified by the source package name).
+func (db *SpecDB) expandModifies() error {
+	for round := 0; round < 4; round++ {
+		changed := false
+		for _, c := range db.Contracts {
+			var out []string
+			for _, m := range c.Modifies {
+				if !strings.HasPrefix(m, "@") {
+					out = append(out, m)
+					continue
+				}
+				ref := strings.TrimPrefix(m, "@")
+				var src *Contract
+				for _, d := range db.Contracts {
+					pn := d.Pkg[strings.LastIndex(d.Pkg, "/")+1:]
+					if pn+"."+d.Name == ref || (d.Pkg == c.Pkg && d.Name == ref) {
+						src = d
+					}
+				}
+				if src == nil {
+					return fmt.Errorf("%s:%d: modifies %s: unknown contract", c.File, c.Line, m)
+				}
+				changed = true
+				if src.ModAll {
+					c.ModAll = true
+				}
+				pn := src.Pkg[strings.LastIndex(src.Pkg, "/")+1:]
+				for _, sm := range src.Modifies {
+					if strings.HasPrefix(sm, "@") || sm == "alloc" || strings.HasPrefix(sm, "map[") || strings.HasPrefix(sm, "G:") || strings.HasPrefix(sm, "*") {
+						out = append(out, sm)
+						continue
+					}
+					// Type.field -> pkg.Type.field unless already qualified
+					if strings.Count(sm, ".") == 1 && src.Pkg != c.Pkg {
+						sm = pn + "." + sm
+					}
+					out = append(out, sm)
+				}
+			}
+			c.Modifies = out
+		}
+		if !changed {
+			break
+		}
+	}
+	return nil
 }
